@@ -1224,7 +1224,9 @@ func c10Plan(t *testing.T, seed uint64, n int, thorough bool) []c10Gen {
 			tys = types
 		}
 		if thorough {
-			tys = types
+			if k != "ping" {
+				tys = []int32{4, 77}
+			}
 			if k != "put" && k != "ping" {
 				recShapes = []int{0, 1, 2, 3, 4, 5, 6}
 				pls = provLists
